@@ -25,7 +25,8 @@ if str(REPO) == "/repo":
     COQ = VERIF / "coq"
 else:
     COQ = WORK / ("coq." + re.sub(r"[^A-Za-z0-9]+", "_", str(REPO)).strip("_"))
-EVID = VERIF / "evidence"
+# runs against another checkout (VERIF_REPO) must not overwrite the evidence of the registered checks
+EVID = VERIF / "evidence" if str(REPO) == "/repo" else WORK / ("evidence." + re.sub(r"[^A-Za-z0-9]+", "_", str(REPO)).strip("_"))
 REPLAYS = VERIF / "replays"
 KNOWN = VERIF / "known_findings.json"
 PY = "/venv/bin/python"
@@ -360,7 +361,7 @@ class Ctx:
             ev["coverage"]["proof_broken"] = True
             ev["coverage"]["obligations_in_cone"] = ev["coverage"].pop("obligations", 0)
             ev["coverage"].pop("discharged", None)
-        EVID.mkdir(exist_ok=True)
+        EVID.mkdir(parents=True, exist_ok=True)
         (EVID / ("%s.json" % self.pid)).write_text(json.dumps(ev, indent=1, default=repr, ensure_ascii=True))
         shutil.rmtree(self.work, ignore_errors=True)
         rc = 1 if self.violations else 0
